@@ -295,8 +295,9 @@ def check(ctx):
             want = c12.model_run("ref", ops)
             if any(x in ("invalid", "bad-op") for x in want):
                 raise C.Infra("C13 generator: history the reference model calls invalid: %s" % ops[:30])
-            for impl in ("mem", "dir"):
+            for impl in ("mem", "dir", "gmem", "gdir"):        # (g…: through the package-level functions translated code calls)
                 shutil.rmtree(os.path.join(scratch, "fsroot-dir"), ignore_errors=True)
+                shutil.rmtree(os.path.join(scratch, "fsroot-gdir"), ignore_errors=True)
                 got = c12.run_real(impl, ops, scratch)
                 stats["sequential_histories"] += 1
                 if got != want and not found:
